@@ -196,8 +196,10 @@ def run(ctx, sess):
     _cache_validity(ctx, P)
     _guarded_caches(ctx, P)
     _open_strict(ctx, P)
+    ctx.rule('C04.13', 'a chunk read reads: every successful return of jls_core_rd_chunk follows a jls_raw_rd of that call that returned 0 - the read buffer then holds what the file holds (consumers such as the UTC iteration convert entries in place, so a payload that is "still there" from an earlier call is not the payload of the file)')
     ctx.rule('C04.12', 'a failed read is not reported as `nothing there`: where a caller answers a result code of a callee (NOT_FOUND, EMPTY) with success, the callee does not return that code on a path on which one of its read-chain calls failed')
     _not_found_rule(ctx, P)
+    rd_chunk_reads_rule(ctx, P, 'C04.13')
     # the value the gates compare with is the CRC-32C in every implementation (C04's three-bit clause rests on it)
     ctx.rule('C04.11', '"at most three flipped bits": the function the gates compare with is the plain CRC-32C register update in every implementation the build can select: kernels, framing and - for the intrinsic implementations - a single ordered chain of steps that tiles the input (shared with C18.2-C18.5); the minimum distance itself is the polynomial\'s')
     from .common import relay
@@ -941,3 +943,21 @@ def _not_found_rule(ctx, P):
                    (c.callee, gname, '/'.join(benign[v] for v in cmap), sorted(set(cmap.values()))[0]),
                    bad.render() if bad else None)
     ctx.floor('read-chain calls in functions whose `not found` is mapped to success', n, 3)
+
+
+def rd_chunk_reads_rule(ctx, P, rule):
+    from ..guard import zero_edges_of_call
+    fn = P.fn('jls_core_rd_chunk')
+    ctx.saw(fn, 1)
+    reads = list(fn.calls('jls_raw_rd'))
+    if not reads:
+        raise AnalysisBroken('jls_core_rd_chunk does not call jls_raw_rd')
+    ok_edges = set()
+    for c in reads:
+        ok_edges |= zero_edges_of_call(fn, c)
+    w = find_path(fn, 'entry', lambda e2, facts: 'target' if (e2.k == 'ret' and ret_class(fn, e2, facts) in ('zero', 'unknown')) else None,
+                  edge_ok=lambda b, s_, label: (b.id, label) not in ok_edges)
+    ctx.ob(rule, w is None and bool(ok_edges), fn.name, 'success only behind a successful raw read', fn.where(),
+           'every zero return passes the zero-result edge of jls_raw_rd' if (w is None and ok_edges) else
+           'the function can report success without having read the chunk: the caller then works on whatever an earlier call left in the buffer - entries another reader converted in place (UTC sample ids shifted by the offset are shifted again and filtered against the wrong ids), or a payload whose check failed',
+           w.render() if w else None)
